@@ -98,10 +98,11 @@ pub fn exec_field_attrs(input: &Value) -> (Value, Value) {
         )
     } else {
         format!(
-            "#[derive(Serialize, Deserialize)]\n{}pub struct S {{\n{}    pub {}: i32,\n}}\n",
+            "#[derive(Serialize, Deserialize)]\n{}pub struct S {{\n{}    pub {}: {},\n}}\n",
             attr_lines(&input["container"], ""),
             attr_lines(&input["attrs"], "    "),
-            ident
+            ident,
+            input.get("ty").and_then(|x| x.as_str()).unwrap_or("i32")
         )
     };
     let mut in2 = input.clone();
@@ -154,6 +155,11 @@ pub fn exec_field_attrs(input: &Value) -> (Value, Value) {
     });
     (in2, imp)
 }
+
+pub const FIELD_TYPES: &[&str] = &[
+    "i32", "String", "Option<String>", "Vec<u8>", "PhantomData<T>", "()", "std::marker::PhantomData<()>", "Box<dyn Any>", "&'static str", "[u8; 4]",
+    "HashMap<String, i32>", "Option<PhantomData<u8>>", "serde_json::Value", "Cow<'static, str>", "Result<(), String>", "fn() -> u8", "Infallible",
+];
 
 pub const SNAKE_IDENTS: &[&str] = &[
     "id", "user_id", "user2fa", "_foo", "foo__bar", "type_", "a", "x1", "a_b_c", "very_long_field_name", "_1",
@@ -293,7 +299,9 @@ fn run_attrs(out: &mut Out, tier: &str) {
             }
             let (kind, ident) = if k % 3 == 0 { ("variant", idents_v[k % 3 + (k / 3) % 3 % 3 % 3]) } else { ("field", idents_f[k % 3]) };
             let ident = if kind == "variant" { idents_v[(k / 3) % 3] } else { ident };
-            out.case("fieldAttrs", json!({"kind": kind, "ident": ident, "container": c, "attrs": attrs}), json!({"gen": "attrs"}));
+            // the key does not depend on the field's type: rotate through types of every kind (marker, unit, unsized, …)
+            let ty = FIELD_TYPES[k % FIELD_TYPES.len()];
+            out.case("fieldAttrs", json!({"kind": kind, "ident": ident, "container": c, "attrs": attrs, "ty": ty}), json!({"gen": "attrs"}));
         }
     }
 }
